@@ -5,7 +5,7 @@
 export GOFLAGS=-mod=mod GOPROXY=off GOSUMDB=off
 OUT=${1:-/verif/.work/baseline.gotest.json}
 mkdir -p "$(dirname "$OUT")"
-(cd /repo && go test -json -vet=off -count=1 -timeout 25m ./... > "$OUT" 2>/dev/null)
+(cd ${REPO_DIR:-/repo} && go test -json -vet=off -count=1 -timeout 25m ./... > "$OUT" 2>/dev/null)
 python3 - "$OUT" <<'PY'
 import json,sys
 passed=set()
